@@ -49,7 +49,7 @@ def enc_script(s):
 
 def enc_op(o):
     k = o[0]
-    if k == "w":
+    if k in ("w", "wp"):
         return "w.%d.%d" % (o[1], o[2])
     if k == "r":
         return "r.%d" % o[1]
@@ -192,6 +192,13 @@ def run_real(case, keep=False, extra_env=None):
                     pr.write(case.names[f], render_script(case, v, progs[v]))
                 else:
                     pr.write(case.names[f], str(2 * v + 3))
+            elif k == "wp":
+                # replace by hand keeping the old mtime (cp -p / rsync -t): only the size (and inode) differ
+                pth = pr.path(case.names[o[1]])
+                old = os.stat(pth) if os.path.exists(pth) else None
+                pr.write(case.names[o[1]], str(2 * o[2] + 3))
+                if old is not None:
+                    os.utime(pth, ns=(old.st_atime_ns, old.st_mtime_ns))
             elif k == "r":
                 pr.rm(case.names[o[1]])
             elif k == "m":
@@ -371,8 +378,11 @@ def gen_case(rng, size=None, features=None):
         elif r < 0.68:
             ops.append(("r", rng.choice(srcs[1:] if use_default and len(srcs) > 1 else srcs if not use_default else tgts)))
         elif r < 0.73:
-            # hand-edit / create a file at a target's name
-            ops.append(("w", rng.choice(tgts), 100 + rng.randint(0, 5)))
+            # hand-edit / create a file at a target's name (sometimes keeping the old mtime, with another size)
+            if rng.random() < 0.35:
+                ops.append(("wp", rng.choice(tgts), 1000 + rng.randint(0, 5)))
+            else:
+                ops.append(("w", rng.choice(tgts), 100 + rng.randint(0, 5)))
         elif r < 0.80:
             t = rng.choice(tgts)
             i = tgts.index(t)
